@@ -54,17 +54,28 @@ def run(ctx):
                     "full walk through the cache.  Plan: %s.  genryw = class of ryw_partial plus removes of nodes that exist "
                     "only in the buffer, no commits; genclean = class of commit_equiv_partial.  non-trivial = a mutation "
                     "succeeded and a call failed; distinct = distinct op-line sequences (64-bit digest)."
+                    "  Concurrent family (`cache conc`, conc.go): per round a fresh cache over a remote that holds a file for a "
+                    "random half of the pool, pending v0 on a random half; one writer goroutine (12..61 mutations on 1..3 hot "
+                    "paths: WriteFile v1,v2,… / MkdirAll of one level / Remove of buffer-only nodes then WriteFile, through the "
+                    "cache or the view), 2..6 reader goroutines (7 read kinds + copy source, cache and view, random spellings), "
+                    "GOMAXPROCS 1..16; every answer must be the direct-application answer in some state of the read's window "
+                    "[mutations completed at its start, mutations started at its end] (atomic counters)."
                     % ", ".join("%s %d" % p for p in plan))
         c2, results = cc.campaign(ctx, sides, PROP, plan)
         concrete |= c2
         cc.account(ctx, results)
         concrete |= cc.oracle(ctx, sides, PROP, [("oracle", ctx.pick(1200, 16000)), ("oracleryw", ctx.pick(400, 6000))])
+        # "for all interleavings": one writer / several readers through the cache and a child view, linearised clause
+        concrete |= cc.conc_family(ctx, sides, PROP, ctx.pick(1600, 24000))
     except RuntimeError as e:
         ctx.fatal(str(e))
     ctx.assumptions += [
         "the remote and the buffer are memory filespaces (property C01)",
         "listings are compared as sets with multiplicity (sorted): the order of a directory filled by fshelper.Copy or by "
         "Commit depends on goroutine scheduling / map iteration",
+        "concurrent family: the linearisation points of a mutation lie between its call and its return; Writer streams and "
+        "CopyFile are not among the writer's mutations (a stream is visible while it is written); the interleavings are "
+        "whatever the Go scheduler produces under GOMAXPROCS 1..16, not enumerated",
         "failing directory copies onto existing buffer children are not generated in bulk; reads between a failed Commit and the next successful one are not compared (`undet`)",
     ]
     ctx.trusted_base.append("fsdrv.Ref, the flat reference of the `cache oracle` (direct application), as second opinion "
